@@ -395,6 +395,10 @@ int32_t jls_twr_fsr(struct jls_twr_s * self, uint16_t signal_id,
 
 int32_t jls_twr_fsr_f32(struct jls_twr_s * self, uint16_t signal_id,
                         int64_t sample_id, const float * data, uint32_t data_length) {
+    if ((signal_id >= JLS_SIGNAL_COUNT) || (self->fsr_entry_size_bits[signal_id] != 32)) {
+        // data holds data_length floats: any other entry size would read past it
+        return JLS_ERROR_PARAMETER_INVALID;
+    }
     return jls_twr_fsr(self, signal_id, sample_id, data, data_length);
 }
 
